@@ -198,6 +198,8 @@ def corpus_cases(prop_id):
 
 
 def run_property(mod, tier, seed, replay=None):
+    if replay and (replay.get('case') or {}).get('rerun'):       # a failure without a case of its own: the replay is the run that found it
+        tier, seed, replay = replay['case'].get('tier', tier), replay['case'].get('seed', seed), None
     """The verdict protocol.  Returns the exit code."""
     env_setup()
     t0 = time.time()
@@ -228,8 +230,15 @@ def run_property(mod, tier, seed, replay=None):
             ctx.escalate = True
             ctx.rng = random.Random(seed + 7919)
             mod.run(ctx)
-    except Exception:
-        harness_error = traceback.format_exc()
+    except Exception as e:
+        from . import fakezmq
+        if isinstance(e, fakezmq.BlockedForever):
+            # the real code entered a wait without a time limit that nothing can end (no harness handled it closer to the call): a concrete failing behaviour
+            fr = [f'{os.path.relpath(f.filename, str(REPO))}:{f.lineno} {f.name}' for f in traceback.extract_tb(e.__traceback__) if str(REPO) in f.filename]
+            res.violations.append(Violation('blocked-forever', 'a call of the real code waits for ever (poll without a time limit while nothing can arrive): ' + ' <- '.join(reversed(fr[-4:])),
+                                            {'rerun': True, 'tier': tier, 'seed': seed, 'escalated': bool(ctx.escalate)}))
+        else:
+            harness_error = traceback.format_exc()
     known = load_known()
     kf = [k for k in known.get('findings', []) if k.get('property') == pid]
     lines, new_viol = [], []
